@@ -100,6 +100,11 @@ def own_nodes(fnode):
     while stack:
         n = stack.pop()
         out.append(n)
+        if isinstance(n, (ast.FunctionDef, ast.AsyncFunctionDef, ast.ClassDef)):
+            # a nested definition is a statement of this body; its own body belongs to the nested scope
+            for d in n.decorator_list:
+                stack.append(d)
+            continue
         for c in ast.iter_child_nodes(n):
             if isinstance(c, (ast.FunctionDef, ast.AsyncFunctionDef, ast.ClassDef)):
                 # decorators / defaults are evaluated in the enclosing scope
